@@ -1,4 +1,4 @@
-//@unit U19 props=C04,C05,C10,C17,C19 rlimit=100 NetcodeServer::{new, handle_connection_request, find_or_add_connect_token_entry, process_packet_internal} (renetcode/src/server.rs)
+//@unit U19 props=C04,C05,C10,C13,C17,C18,C19 rlimit=100 NetcodeServer::{new, handle_connection_request, find_or_add_connect_token_entry, process_packet_internal, generate_payload_packet, update_client, disconnect} (renetcode/src/server.rs)
 #![feature(allocator_api)]
 #![allow(unused_imports, dead_code, unused_variables, unused_mut)]
 use vstd::prelude::*;
@@ -33,6 +33,7 @@ pub struct ExIoError(std::io::Error);
 //@extract const renetcode/src/lib.rs NETCODE_CHALLENGE_TOKEN_BYTES
 //@extract const renetcode/src/lib.rs NETCODE_CONNECT_TOKEN_XNONCE_BYTES
 //@extract const renetcode/src/replay_protection.rs NETCODE_REPLAY_BUFFER_SIZE
+//@extract const renetcode/src/lib.rs NETCODE_SEND_RATE
 
 #[derive(Debug, Clone, Copy, PartialEq, Eq)]
 //@extract enum renetcode/src/client.rs DisconnectReason
@@ -51,7 +52,7 @@ impl From<TokenGenerationError> for NetcodeError {
 //@extract struct renetcode/src/token.rs PrivateConnectToken
 #[derive(Debug, Clone)]
 //@extract struct renetcode/src/replay_protection.rs ReplayProtection
-#[derive(Debug, Clone, Copy, PartialEq, Eq)]
+#[derive(Debug, Clone, Copy, PartialEq, Eq, Structural)]
 //@extract enum renetcode/src/server.rs ConnectionState
 #[derive(Debug, Clone)]
 //@extract struct renetcode/src/server.rs Connection
@@ -150,6 +151,8 @@ impl NetcodeServer {
         &&& self.current_time.nanos / 1_000_000_000 <= u64::MAX
         &&& self.global_sequence < u64::MAX && self.challenge_sequence < u64::MAX
         &&& forall|a: SocketAddr| #[trigger] self.pending_clients@.contains_key(a) ==> self.pending_clients@[a].sequence < 0x8000_0000_0000_0000
+        &&& forall|i: int| 0 <= i < self.clients@.len() ==> ((#[trigger] self.clients@[i]) matches Some(c) ==> c.sequence < 0x8000_0000_0000_0000
+                && c.last_packet_received_time.nanos <= 0xFFFF_FFFF_FFFF_FFFF * 1_000_000_000 && c.last_packet_send_time.nanos <= 0xFFFF_FFFF_FFFF_FFFF * 1_000_000_000)
     }
 }
 
@@ -255,7 +258,9 @@ impl ReplayProtection {
 //@stub renetcode/src/server.rs ::find_client_slot_by_id
 //@ret r
 //@spec
-        ensures r is Some <==> id_connected(clients@, client_id),
+        ensures
+            r is Some <==> id_connected(clients@, client_id),
+            r matches Some(i) ==> i < clients@.len() && (clients@[i as int] matches Some(c) && c.client_id == client_id),
 //@endfn
 /// rule D19 -- ASSUMED: `self.clients.iter().position(|c| c.is_none())`
 #[verifier::external_body]
@@ -332,6 +337,94 @@ impl NetcodeServer {
 //@closure 1 -> (c: Connection) ensures c.addr == addr && c.sequence == 0 && c.client_id == connect_token.client_id
 //@cut /let in_host_list = connect_token$/ .. /\.any\(\|addr\| self\.public_addresses\.contains\(&addr\)\);/ => let in_host_list = host_in_list_unverified(&connect_token.server_addresses, &self.public_addresses);
 //@cut /if self\.clients\.iter\(\)\.flatten\(\)\.count\(\) >= self\.max_clients \{/ .. /if self\.clients\.iter\(\)\.flatten\(\)\.count\(\) >= self\.max_clients \{/ => if connected_count_unverified(&self.clients) >= self.max_clients {
+//@endfn
+
+//@fn renetcode/src/server.rs NetcodeServer::generate_payload_packet
+//@ret r
+//@spec
+        requires old(self).server_wf(), old(self).counters_ok(),
+        ensures
+            final(self).server_wf(),                                                                           // @C10 payload_packet.server_invariant_kept
+            same_sessions(old(self).clients@, final(self).clients@),                                           // @C10 payload_packet.sessions_untouched
+            // the packet goes to the address of the session registered under that id, sealed with that session's counter, which then advances
+            r matches Ok(ap) ==> exists|k: int| #![trigger old(self).clients@[k]] slot_is(old(self).clients@, k, client_id, ap.0)
+                && session_nonce(ap.1@, old(self).clients@[k]->Some_0.sequence)
+                && final(self).clients@[k]->Some_0.sequence == old(self).clients@[k]->Some_0.sequence + 1,     // @C10,C17 payload_packet.sealed_for_that_session_with_a_fresh_nonce
+            r matches Ok(ap) ==> ap.1@.len() <= 1400,                                                          // @C13 payload_packet.fits_the_datagram_buffer
+            r is Err ==> final(self).clients@ == old(self).clients@,                                           // @C10 payload_packet.error_changes_nothing
+//@entry
+        let ghost s0 = *self;
+//@endfn
+
+//@fn renetcode/src/server.rs NetcodeServer::update_client
+//@ret r
+//@spec
+        requires old(self).server_wf(), old(self).counters_ok(),
+        ensures
+            final(self).server_wf(),                                                                           // @C10 update_client.server_invariant_kept
+            r is None || r is PacketToSend || r is ClientDisconnected,                                         // @C10 update_client.result_kinds
+            // C10/C18: a session is dropped here only when it was marked disconnected or nothing arrived for more than its timeout
+            r matches ServerResult::ClientDisconnected { client_id: id, addr, payload } ==> id == client_id
+                && exists|k: int| #![trigger final(self).clients@[k]] slot_is(old(self).clients@, k, client_id, addr) && final(self).clients@[k] is None
+                    && same_sessions_but(old(self).clients@, final(self).clients@, k)
+                    && (old(self).clients@[k]->Some_0.state is Disconnected
+                        || (old(self).clients@[k]->Some_0.timeout_seconds > 0 && old(self).clients@[k]->Some_0.last_packet_received_time.nanos
+                            + old(self).clients@[k]->Some_0.timeout_seconds * 1_000_000_000 < old(self).current_time.nanos))
+                    && (payload matches Some(p) ==> session_nonce(p@, old(self).clients@[k]->Some_0.sequence)),  // @C10,C17,C18 update_client.drops_only_a_timed_out_or_disconnected_session
+            !(r is ClientDisconnected) ==> same_sessions(old(self).clients@, final(self).clients@),             // @C10 update_client.otherwise_sessions_untouched
+            r matches ServerResult::PacketToSend { addr, payload } ==> exists|k: int| #![trigger old(self).clients@[k]] slot_is(old(self).clients@, k, client_id, addr)
+                && session_nonce(payload@, old(self).clients@[k]->Some_0.sequence),                             // @C17,C19 update_client.keep_alive_goes_to_that_session
+//@entry
+        let ghost s0 = *self;
+//@before /return ServerResult::ClientDisconnected \{/ 1
+                        proof {
+                            let k = slot as int;
+                            assert(slot_is(s0.clients@, k, client_id, addr));
+                            assert(self.clients@[k] is None);
+                            assert(same_sessions_but(s0.clients@, self.clients@, k));
+                        }
+//@before /return ServerResult::ClientDisconnected \{/ 2
+                proof {
+                    let k = slot as int;
+                    assert(slot_is(s0.clients@, k, client_id, addr));
+                    assert(self.clients@[k] is None);
+                    assert(same_sessions_but(s0.clients@, self.clients@, k));
+                }
+//@before /return ServerResult::PacketToSend \{/
+                proof {
+                    let k = slot as int;
+                    assert(slot_is(s0.clients@, k, client_id, client.addr));
+                }
+//@endfn
+
+//@fn renetcode/src/server.rs NetcodeServer::disconnect
+//@ret r
+//@spec
+        requires old(self).server_wf(), old(self).counters_ok(),
+        ensures
+            final(self).server_wf(),                                                                           // @C10 disconnect.server_invariant_kept
+            r is None || r is ClientDisconnected,                                                              // @C10 disconnect.result_kinds
+            r is None ==> !id_connected(old(self).clients@, client_id) && final(self).clients@ == old(self).clients@,   // @C10 disconnect.unknown_id_changes_nothing
+            r matches ServerResult::ClientDisconnected { client_id: id, addr, payload } ==> id == client_id
+                && exists|k: int| #![trigger final(self).clients@[k]] slot_is(old(self).clients@, k, client_id, addr) && final(self).clients@[k] is None
+                    && same_sessions_but(old(self).clients@, final(self).clients@, k)
+                    && (payload matches Some(p) ==> session_nonce(p@, old(self).clients@[k]->Some_0.sequence)),  // @C10,C17 disconnect.removes_exactly_that_session
+//@entry
+        let ghost s0 = *self;
+//@before /return ServerResult::ClientDisconnected \{/ 1
+                    proof {
+                        let k = slot as int;
+                        assert(slot_is(s0.clients@, k, client_id, client.addr));
+                        assert(self.clients@[k] is None);
+                        assert(same_sessions_but(s0.clients@, self.clients@, k));
+                    }
+//@before /return ServerResult::ClientDisconnected \{/ 2
+            proof {
+                let k = slot as int;
+                assert(slot_is(s0.clients@, k, client_id, client.addr));
+                assert(self.clients@[k] is None);
+                assert(same_sessions_but(s0.clients@, self.clients@, k));
+            }
 //@endfn
 
 //@fn renetcode/src/server.rs NetcodeServer::process_packet_internal
